@@ -40,6 +40,9 @@ pub struct FnPlan {
     pub padding: bool,
     /// also keep a second saved register busy (s1/s11)
     pub extra_saved: Option<Reg>,
+    /// keep a frame pointer in s10 (`mv s10, sp` after the prologue, `mv sp, s10` before
+    /// the epilogue)
+    pub frame_pointer: bool,
 }
 
 #[derive(Clone, Debug)]
@@ -95,6 +98,11 @@ pub fn emit_function(fi: usize, plans: &[FnPlan]) -> Vec<Stmt> {
             slots.push(x);
         }
     }
+    const S10: Reg = 26;
+    let fp = p.frame_pointer && !p.recursive;
+    if fp {
+        slots.push(S10);
+    }
     if p.frame_variant == 1 {
         slots.reverse();
     }
@@ -106,10 +114,16 @@ pub fn emit_function(fi: usize, plans: &[FnPlan]) -> Vec<Stmt> {
             for (k, r) in slots.iter().enumerate() {
                 s.push(sw(*r, off(k), SP));
             }
+            if fp {
+                s.push(mv(S10, SP));
+            }
         }
     };
     let epilogue = |s: &mut Vec<Stmt>| {
         if frame > 0 {
+            if fp {
+                s.push(mv(SP, S10));
+            }
             for (k, r) in slots.iter().enumerate() {
                 s.push(lw(*r, off(k), SP));
             }
@@ -278,11 +292,12 @@ pub struct Opts {
     pub frame_variants: usize,
     pub paddings: usize,
     pub extras: Vec<Option<Reg>>,
+    pub frame_pointers: usize,
 }
 
 impl Opts {
     pub fn count(&self) -> u64 {
-        (self.arities.len() * 2 * self.skels.len() * 2 * self.frame_variants * self.paddings * self.extras.len()) as u64
+        (self.arities.len() * 2 * self.skels.len() * 2 * self.frame_variants * self.paddings * self.extras.len() * self.frame_pointers) as u64
     }
     pub fn get(&self, mut i: u64, name: String) -> FnPlan {
         let mut take = |n: usize| -> usize {
@@ -297,6 +312,7 @@ impl Opts {
         let frame_variant = take(self.frame_variants);
         let padding = take(self.paddings) == 1;
         let extra_saved = self.extras[take(self.extras.len())];
+        let frame_pointer = take(self.frame_pointers) == 1;
         FnPlan {
             name,
             arity,
@@ -308,6 +324,7 @@ impl Opts {
             frame_variant,
             padding,
             extra_saved,
+            frame_pointer,
         }
     }
 }
@@ -357,6 +374,7 @@ impl SSpace {
             frame_variants: 2,
             paddings: 1,
             extras: vec![None],
+            frame_pointers: 1,
         };
         let tiny = Opts {
             arities: vec![1],
@@ -364,6 +382,7 @@ impl SSpace {
             frame_variants: 1,
             paddings: 1,
             extras: vec![None],
+            frame_pointers: 1,
         };
         let full = Opts {
             arities: vec![0, 1, 2],
@@ -371,6 +390,7 @@ impl SSpace {
             frame_variants: 2,
             paddings: 2,
             extras: vec![None, Some(S11)],
+            frame_pointers: 2,
         };
         let parts = match tier {
             Tier::Quick => vec![(1, full.clone()), (2, small), (3, tiny)],
@@ -384,9 +404,10 @@ impl SSpace {
                         frame_variants: 2,
                         paddings: 1,
                         extras: vec![None],
+                        frame_pointers: 2,
                     },
                 ),
-                (3, Opts { skels: SKELS[..3].to_vec(), arities: vec![0, 1], frame_variants: 1, paddings: 1, extras: vec![None] }),
+                (3, Opts { skels: SKELS[..3].to_vec(), arities: vec![0, 1], frame_variants: 1, paddings: 1, extras: vec![None], frame_pointers: 1 }),
             ],
         };
         SSpace {
